@@ -382,6 +382,57 @@ fn family_chain(rep: &mut Report, g: &mut Gen) {
     absorb(rep, g, outs, 0);
 }
 
+/// Names are octet strings (RFC 1035 3.1, RFC 2181 11): every octet value may occur in a label,
+/// and letter case is data.  For every octet value v: labels made of v alone, of length 1, 2 and 63,
+/// and the longest legal name made of v (255 octets on the wire), as question name, owner and
+/// record data of six record types, in every pairing of "short" and "longest" name.
+fn octet_names(v: u8) -> Vec<Name> {
+    vec![
+        vec![vec![v], b"a".to_vec()],
+        vec![vec![v, v], vec![v]],
+        vec![vec![v; 63], b"example".to_vec()],
+        vec![vec![b'w', v, b'w'], vec![v; 63], vec![v; 63]],
+        vec![vec![v; 63], vec![v; 63], vec![v; 63], vec![v; 61]],
+    ]
+}
+
+fn octets_pkt(v: u8, qi: usize, ni: usize, t: u16) -> dnspkt::DNSPkt {
+    let ns = octet_names(v);
+    let mut p = base_pkt(&ns[qi]);
+    let other = &ns[(ni + 1) % ns.len()];
+    put(&mut p, 0, &mk_rr(t, &ns[qi], &ns[ni], other, 60));
+    put(&mut p, 1, &mk_rr(rd::T_NS, &ns[ni], other, &vec![], 60));
+    put(&mut p, 2, &mk_rr(rd::T_A, other, &vec![], &vec![], 60));
+    p
+}
+
+fn family_octets(rep: &mut Report, g: &mut Gen, thorough: bool) {
+    let types: Vec<u16> = if thorough { vec![rd::T_CNAME, rd::T_MX, rd::T_RP, rd::T_SOA, rd::T_NAPTR, rd::T_A] } else { vec![rd::T_CNAME, rd::T_SOA] };
+    let mut cases = vec![];
+    for v in 0..=255u8 {
+        for qi in 0..5usize {
+            for ni in 0..5usize {
+                for t in &types {
+                    cases.push((v, qi, ni, *t));
+                }
+            }
+        }
+    }
+    let outs: Vec<Outcome> = cases
+        .par_iter()
+        .map(|(v, qi, ni, t)| {
+            let case = json!({"engine":"c14","family":"octets","octet":v,"q":qi,"n":ni,"type":t});
+            let mut o = judge_structured(&octets_pkt(*v, *qi, *ni, *t), "octets", case);
+            if let Some(viol) = o.viol.take() {
+                let kind = if v.is_ascii_alphanumeric() { "alnum" } else if (0x21..0x7f).contains(v) { "punct" } else { "non-printable" };
+                o.viol = Some(viol.sig("octet-kind", kind));
+            }
+            o
+        })
+        .collect();
+    absorb(rep, g, outs, 0);
+}
+
 pub fn boundary_pkt(target: usize, follow: usize) -> dnspkt::DNSPkt {
     // header 12 + question (root, 5 octets) = 17; each filler = 1 (root owner) + 10 + rdlen
     let mut p = base_pkt(&vec![]);
@@ -618,6 +669,12 @@ pub fn run(tier: &str, replay: Option<Value>) -> ! {
                     rep.violation(v.sig("family", "bytes"));
                 }
             }
+            Some("octets") => {
+                let p = octets_pkt(case["octet"].as_u64().unwrap_or(0) as u8, case["q"].as_u64().unwrap_or(0) as usize, case["n"].as_u64().unwrap_or(0) as usize, case["type"].as_u64().unwrap_or(5) as u16);
+                if let Some(v) = judge_structured(&p, "octets", case.clone()).viol {
+                    rep.violation(v);
+                }
+            }
             Some("boundary") => {
                 let p = boundary_pkt(case["first_written_at"].as_u64().unwrap_or(0x4000) as usize, case["follow"].as_u64().unwrap_or(0) as usize);
                 if let Some(v) = judge_structured(&p, "boundary", case.clone()).viol {
@@ -642,6 +699,7 @@ pub fn run(tier: &str, replay: Option<Value>) -> ! {
     family_multi(&mut rep, &mut g, 3);
     family_rdata_ref(&mut rep, &mut g);
     family_chain(&mut rep, &mut g);
+    family_octets(&mut rep, &mut g, thorough);
     let e2 = g.evals;
     family_boundary(&mut rep, &mut g, thorough);
     let e3 = g.evals;
@@ -652,7 +710,7 @@ pub fn run(tier: &str, replay: Option<Value>) -> ! {
     let e5 = g.evals;
     rep.cov("evaluations", g.evals);
     rep.cov("distinct_nontrivial", g.classes.len() as u64);
-    rep.cov("rule", "structured: every (question, section, type, owner, rdata-name[s]) over names of depth<=2 (thorough 3) on labels {a,b,63x}; every 3-record sequence over an 8-record alphabet x section split; for every name-carrying type and name slot a new name written in record data and one of 5 suffix shapes of it used by a second record (owner or either rdata slot, 7 types) x 3 questions x 3 section pairs; names extending one another label by label to every chain length 1..127 (3 shapes); name first written at every offset 0x3fe0..0x4020, 0xff80..0xffb0 (+ sweep) x 5 follow-ups; header/EDNS product. bytes: every additional section of <=3 records over {2 address records, 4 differing OPT records} (several OPT records, OPT between other records) encoded by the reference encoder; base encodings x every offset x byte values (quick 14 boundary values, thorough all 256) + own-offset + every truncation. distinct = (family, size class, pointer count / acceptance shape) classes");
+    rep.cov("rule", "structured: every (question, section, type, owner, rdata-name[s]) over names of depth<=2 (thorough 3) on labels {a,b,63x}; every 3-record sequence over an 8-record alphabet x section split; for every name-carrying type and name slot a new name written in record data and one of 5 suffix shapes of it used by a second record (owner or either rdata slot, 7 types) x 3 questions x 3 section pairs; names extending one another label by label to every chain length 1..127 (3 shapes); for every octet value 0..255 five names made of that octet (labels of 1, 2, 63 octets, up to the longest legal name of 255 wire octets) x question/owner x record data x record type (quick 2, thorough 6); name first written at every offset 0x3fe0..0x4020, 0xff80..0xffb0 (+ sweep) x 5 follow-ups; header/EDNS product. bytes: every additional section of <=3 records over {2 address records, 4 differing OPT records} (several OPT records, OPT between other records) encoded by the reference encoder; base encodings x every offset x byte values (quick 14 boundary values, thorough all 256) + own-offset + every truncation. distinct = (family, size class, pointer count / acceptance shape) classes");
     rep.cov("exhaustive", true);
     rep.cov("parts", json!({"single": e1, "multi": e2 - e1, "boundary": e3 - e2, "header": e4 - e3, "bytes": e5 - e4}));
     let mut samples = pick_samples(&g.samples, 4, rep.seed);
